@@ -3,6 +3,7 @@ package props
 import (
 	"fmt"
 	"strings"
+	"sync"
 	"testing"
 
 	lib "github.com/corazawaf/libinjection-go"
@@ -16,16 +17,24 @@ import (
 func init() { registry["C14"] = c14Oracle }
 
 // keyword components: every key and every space-separated component of a key (upper case)
-var kwComponents = func() map[string]bool {
-	m := map[string]bool{}
-	for k := range kw {
-		m[k] = true
-		for _, part := range strings.Fields(k) {
-			m[part] = true
+var (
+	kwCompOnce sync.Once
+	kwCompVal  map[string]bool
+)
+
+func kwComps() map[string]bool {
+	kwCompOnce.Do(func() {
+		m := map[string]bool{}
+		for k := range kwTab() {
+			m[k] = true
+			for _, part := range strings.Fields(k) {
+				m[part] = true
+			}
 		}
-	}
-	return m
-}()
+		kwCompVal = m
+	})
+	return kwCompVal
+}
 
 func isBenignWord(w string) bool {
 	if w == "" || !(gen.IsLetter(w[0]) || w[0] == '_') {
@@ -36,7 +45,7 @@ func isBenignWord(w string) bool {
 			return false
 		}
 	}
-	return !kwComponents[gen.UpperASCII(w)]
+	return !kwComps()[gen.UpperASCII(w)]
 }
 
 func isNumber(w string) bool {
@@ -112,7 +121,7 @@ func inDomain(kind, s string) bool {
 func c14Oracle(c ev.Case) Res {
 	if c.Kind == "classes" {
 		// the token-class abstraction: no fingerprint made only of n and 1 is blacklisted
-		if kw["0"+gen.UpperASCII(c.In)] == 'F' {
+		if kwTab()["0"+gen.UpperASCII(c.In)] == 'F' {
 			return fail("the fingerprint %q (bare words and numbers only) is in the blacklist", c.In)
 		}
 		return Res{NT: len(c.In) >= 2, Class: "class_string"}
